@@ -3,6 +3,7 @@
 package chronicler
 
 // Machine-checked contracts (comment-only; compiled only with -tags verif).
+//@ load app/core/hydra/swamp/chronicler/v2
 //
 // chroniclerV2 owns one v2.FileWriter. The contracts below state how it drives the storage
 // engine on the paths the persistence properties depend on:
@@ -21,8 +22,12 @@ package chronicler
 // Helpers of this package that the contracts treat as opaque (not verified here).
 //@ func (*chroniclerV2).encodeTreasure(c, t, guardID) (data, err)
 //@   opaque
+// decodeTreasure: ASSUMED (opaque, body not verified): whether given bytes decode is a function of the
+// bytes (P_decodes), and a successful decode returns a record.
 //@ func (*chroniclerV2).decodeTreasure(c, data) (t, err)
 //@   opaque
+//@   ensures[outcome_is_a_function_of_the_bytes] (err == nil) <==> P_decodes(data)
+//@   ensures[loaded_record_is_returned] err == nil ==> t != nil
 //@ func (*chroniclerV2).maybeCompactInline(c)
 //@   opaque
 //@   modifies *
@@ -48,6 +53,8 @@ package chronicler
 //@   overflow: assumed
 //@   modifies *
 //@   before Beacon.PushManyFromMap [every_replayed_key_was_decoded] forall k in keys(index): visited(k)
+//@   loop 0 invariant[C05:every_decodable_entry_is_kept] treasures != nil && forall k in keys(index): visited(k) && P_decodes(index[k]) ==> has(treasures, k)
+//@   before Beacon.PushManyFromMap [C05:every_decodable_entry_reaches_memory] arg1 == treasures && forall k in keys(index): P_decodes(index[k]) ==> has(treasures, k)
 //@   before CompactFromIndex [C03:self_heal_compacts_exactly_the_replayed_index] arg3 == lastret("FileReader.LoadIndex", 0) && mapsamesince("FileReader.LoadIndex", arg3)
 //@   ensures[replayed_index_reaches_memory] calls("FileReader.LoadIndex") > old(calls("FileReader.LoadIndex")) && isnil(lastret("FileReader.LoadIndex", 2)) ==> calls("Beacon.PushManyFromMap") == old(calls("Beacon.PushManyFromMap")) + 1
 //@   ensures[pushed_at_most_once] calls("Beacon.PushManyFromMap") <= old(calls("Beacon.PushManyFromMap")) + 1
